@@ -1,0 +1,41 @@
+//go:build verif
+// +build verif
+
+// Verification hook for property C11 (add-only, compiled only with -tags verif): read-only access to the
+// per-group counters of RegionScatterer, so that the correspondence check can compare the scatterer's
+// state before and after every Scatter call with the model's.
+
+package schedule
+
+func verifDump(s *selectedStores) map[string]map[uint64]uint64 {
+	s.mu.RLock()
+	defer s.mu.RUnlock()
+	out := map[string]map[uint64]uint64{}
+	for _, g := range s.groupDistribution.GetAllID() {
+		if d, ok := s.getDistributionByGroupLocked(g); ok {
+			c := make(map[uint64]uint64, len(d))
+			for k, v := range d {
+				c[k] = v
+			}
+			out[g] = c
+		}
+	}
+	return out
+}
+
+// VerifSelectedPeers returns group -> store -> count of the selected-peer counters of one engine context
+// ("" = the ordinary engine context).
+func (r *RegionScatterer) VerifSelectedPeers(engine string) map[string]map[uint64]uint64 {
+	if engine == "" {
+		return verifDump(r.ordinaryEngine.selectedPeer)
+	}
+	if ctx, ok := r.specialEngines[engine]; ok {
+		return verifDump(ctx.selectedPeer)
+	}
+	return map[string]map[uint64]uint64{}
+}
+
+// VerifSelectedLeaders returns group -> store -> count of the selected-leader counters (ordinary engine context).
+func (r *RegionScatterer) VerifSelectedLeaders() map[string]map[uint64]uint64 {
+	return verifDump(r.ordinaryEngine.selectedLeader)
+}
